@@ -6,6 +6,7 @@ def fn(f, entry, npost=1):
     d.update(U(entry)); return d
 PLAN = {
     'property': 'C11',
+    'standard_checks': False,      # functional obligations; out-of-array accesses are explicit outcomes (VERIF_RAW_*), the rest is C18
     'units': [{'name': 'mem', 'tu': ['src/teakra.cpp', 'src/memory_interface.cpp'], 'roots': TK,
                'must_fire': ['SharedMemory::raw[i] -> VERIF_RAW_READ(raw, i) (bounds = outcome/obligation)', 'SharedMemory::raw[i] = v -> VERIF_RAW_WRITE(raw, i, v)'],
                'require_functions': MI + ['SharedMemory_ReadWord', 'SharedMemory_WriteWord']}],
